@@ -87,7 +87,11 @@ extern "C" void h_init_explicit(void) {
     verif_assert(fbits(t.range()) == fbits(r), "range comes from this attribute's options, verbatim");
     for (int i = 0; i < 3; ++i) if (i < ncomp[id]) verif_assert(fbits(t.min_value(i)) == fbits(verif_opt[id].origin[i]), "origin comes from this attribute's options, verbatim");
   } else {
-    verif_assert(bits < 1 || bits > 30, "explicit parameters are only refused when the bit count is unusable");
+    { // (a stricter validation of non-finite or non-positive ranges / non-finite origins would be legitimate: not asserted against)
+      bool usable = r > 0.f && r < 3e38f;
+      for (int i = 0; i < 3; ++i) if (i < ncomp[id]) { const float o = verif_opt[id].origin[i]; usable = usable && o > -3e38f && o < 3e38f; }
+      verif_assert(bits < 1 || bits > 30 || !usable, "usable explicit parameters are only refused when the bit count is unusable");
+    }
   }
   verif_release(pc.attributes_); slots[0].release(); slots[1].release();
   verif_reach();
